@@ -33,7 +33,18 @@ pub trait StoreField: Sized {
     /// Reactively tracks this field.
     #[track_caller]
     fn track_field(&self) {
-        let path = self.path().into_iter().collect();
+        let path = self.path().into_iter().collect::<StorePath>();
+        // tracks `this` for all ancestors: a write made directly to an ancestor replaces
+        // this field too, whatever kind of field it is (see `Subfield::track_field`)
+        let mut full_path = path.clone();
+        loop {
+            let inner = self.get_trigger(full_path.clone());
+            inner.this.track();
+            if full_path.is_empty() {
+                break;
+            }
+            full_path.pop();
+        }
         let trigger = self.get_trigger(path);
         trigger.this.track();
         trigger.children.track();
